@@ -947,7 +947,7 @@ def enumerate_records(tier, seed):
             for n in (LAYOUT_NAMES if k <= 2 else [LAYOUT_NAMES[j % 3]]):
                 recs.append({"kind": "derived", "layout": n, "involved": list(comb), "index_map": dict(DEVICE_MAP)})
     if thorough:   # random ordered tuples of the next sizes
-        for t in range(15000):
+        for t in range(8000):
             recs.append({"kind": "derived", "layout": LAYOUT_NAMES[t % 3], "involved": rnd.sample(QUBITS, rnd.randint(4, 6))})
     # 3. subsets exhaustively: quick: every subset of size <= 4 (all layouts) as mask records; thorough: all 2^17 (mask ranges)
     ranges = []
@@ -965,7 +965,7 @@ def enumerate_records(tier, seed):
                 for n in (LAYOUT_NAMES if k <= 3 else [LAYOUT_NAMES[cnt % 3]]):
                     recs.append(rec_from_mask(n, mask, seed))
     # 4. random subsets / orderings of the larger sizes
-    for t in range(8000 if thorough else 1500):
+    for t in range(5000 if thorough else 1500):
         k = rnd.randint(5, 17)
         sub = rnd.sample(QUBITS, k)
         rec = {"kind": "derived", "layout": LAYOUT_NAMES[t % 3], "involved": sub}
@@ -1089,7 +1089,7 @@ STAND_INS = {
 def run(tier, seed, out):
     res = common.Result(PROP)
     t0 = time.time()
-    budget = float(os.environ.get("C17_BUDGET_S", 500.0 if tier == "thorough" else 50.0))   # wall budget for submitting work
+    budget = float(os.environ.get("C17_BUDGET_S", 545.0 if tier == "thorough" else 50.0))   # wall budget for submitting work
     lib()
     for n in LAYOUT_NAMES:   # instantiate singletons before forking
         get_layout(n)
